@@ -368,6 +368,34 @@ func runVdrProperty(c *Ctx, prop string) {
 			reqs[i] = ck.Req
 		}
 		replies := c.Drv.AskBatch(reqs)
+		// the decidable hypotheses of the theorems (CfgOK, PathKinds, Sep, LinksTop) as the driver
+		// evaluated them on every replayed state
+		hypNames := []string{"CfgOK", "PathKinds", "Sep", "LinksTop"}
+		hypBad := map[string]bool{}
+		for i, rep := range replies {
+			j := strings.LastIndex(rep, " hyp=")
+			if j < 0 {
+				continue
+			}
+			flags := rep[j+5:]
+			replies[i] = rep[:j]
+			for k, name := range hypNames {
+				if k < len(flags) && flags[k] == '1' {
+					r.hist("hypothesis-" + name + "-holds")
+				} else {
+					r.hist("hypothesis-" + name + "-fails")
+					// LinksTop (needed by report_exact_partial / reclaims_all_unreferenced only) is known not to
+					// hold of runs below a linked root, where every entry carries further logical names:
+					// those runs are outside these two theorems (counted, not reported)
+					if name != "LinksTop" && !hypBad[name] {
+						hypBad[name] = true
+						r.violate(Violation{Kind: "correspondence", Key: prop + ":model:hypothesis-" + name,
+							What:  "the hypothesis " + name + " of the VDR theorems does not hold of a state of a real run that the model replays (" + checks[i].What + ")",
+							Input: map[string]interface{}{"spec": specs[owners[i]], "request": checks[i].Req}, Broken: "Vdr." + name})
+					}
+				}
+			}
+		}
 		agrees := func(ck VdrModelCheck, reply string) bool {
 			got, want := reply, ck.Expect
 			if ck.DiskOnly {
